@@ -61,7 +61,64 @@ static long g_ucell_ctor = 0, g_ucell_dtor = 0;
 union UCell { int i; float f; UCell() : i(0) { g_ucell_ctor++; } UCell(const UCell& o) : i(o.i) { g_ucell_ctor++; } UCell& operator=(const UCell& o) { i = o.i; return *this; } ~UCell() { g_ucell_dtor++; } };
 static int elem_idx(const UCell&) { return 1; }
 
+// an alternative constructible from a C string (and from an int): next to a bool alternative, libnop's IsConstructible deliberately says "bool is not
+// constructible from a pointer", which is where "construct whatever accepts the arguments" and "construct the alternative that was named" part ways
+struct PN : Tr<8> { PN() = default; PN(int x) : Tr<8>(x) {} PN(const char* t) : Tr<8>((int)strlen(t)) {} };
+struct BecomeSeen { int calls = 0, as_bool = 0, as_pn = 0, as_int = 0, as_a = 0, as_b = 0, as_empty = 0; bool bval = false; int ival = 0;
+  void operator()(const bool& b) { calls++; as_bool++; bval = b; } void operator()(const PN& p) { calls++; as_pn++; ival = p.v; } void operator()(const int& i) { calls++; as_int++; ival = i; }
+  void operator()(const TA& a) { calls++; as_a++; ival = a.v; } void operator()(const TB& b) { calls++; as_b++; ival = b.v; } void operator()(nop::EmptyVariant) { calls++; as_empty++; } };
+static void variant_become_special() {
+  Special s{"c12"};
+  // Become(i, args...): afterwards index() == i, the alternative alive is the i-th one, built from args; every other index empties the Variant
+  { s.begin("Become/bool-next-to-pointer-constructible");
+    { nop::Variant<bool, PN> v; const char* src = "yes"; v.Become(0, src);
+      s.expect(v.index() == 0, "model:Variant.index", fmt("Variant<bool,PN>::Become(0, const char*): index() = %d", v.index()));
+      s.expect(g_live.empty(), "registry:Variant.live-count", fmt("Become(0, const char*) targets the bool alternative but %zu PN elements are alive", g_live.size()));
+      s.expect(v.get<bool>() && *v.get<bool>() == true, "model:Variant.get", "get<bool>() after Become(0, non-null pointer) is not a true bool"); s.expect(v.get<PN>() == nullptr, "model:Variant.get", "get<PN>() non-null while index() names bool");
+      BecomeSeen q; v.Visit(q); s.expect(q.calls == 1 && q.as_bool == 1 && q.bval, "model:Variant.Visit-alternative", "Visit after Become(0, ptr) did not present a true bool exactly once");
+      v.Become(1, "abcd"); s.expect(v.index() == 1 && v.get<PN>() && v.get<PN>()->v == 4 && g_live.size() == 1, "model:Variant.index", "Become(1, \"abcd\") does not hold PN(4) alone");
+      const char* none = nullptr; v.Become(0, none); s.expect(v.index() == 0 && v.get<bool>() && *v.get<bool>() == false && g_live.empty(), "model:Variant.index", "Become(0, nullptr pointer) over a PN: not a false bool, or the PN is still alive");
+      v.Become(1, 9); s.expect(v.index() == 1 && v.get<PN>() && v.get<PN>()->v == 9, "model:Variant.value", "Become(1, 9) does not hold PN(9)"); v.Become(1, 5); s.expect(v.get<PN>() && v.get<PN>()->v == 9, "model:Variant.value", "Become(same index, args) replaced the active element");
+      v.Become(2, src); s.expect(v.empty() && g_live.empty(), "model:Variant.empty", "Become(out-of-range index) did not leave the Variant empty"); v.Become(-1, src); s.expect(v.empty(), "model:Variant.empty", "Become(-1) did not leave the Variant empty");
+      v.Become(1, src); }
+    s.end(); }
+  { s.begin("Become/pointer-constructible-before-bool");
+    { nop::Variant<PN, bool> v; const char* src = "xy"; v.Become(1, src); s.expect(v.index() == 1 && g_live.empty() && v.get<bool>() && *v.get<bool>(), "model:Variant.index", "Variant<PN,bool>::Become(1, const char*): not a true bool, or a PN was constructed");
+      v.Become(0, src); s.expect(v.index() == 0 && v.get<PN>() && v.get<PN>()->v == 2 && g_live.size() == 1, "model:Variant.index", "Become(0, const char*) does not hold PN(2) alone");
+      BecomeSeen q; v.Visit(q); s.expect(q.calls == 1 && q.as_pn == 1 && q.ival == 2, "model:Variant.Visit-alternative", "Visit did not present the PN"); }
+    s.end(); }
+  { s.begin("Become/every-alternative-accepts-the-argument");
+    for (int target = -2; target <= 4; target++) for (int from = -1; from <= 3; from++) {
+      nop::Variant<int, TA, TB, PN> v; if (from >= 0) v.Become(from, 100 + from);
+      v.Become(target, 7);
+      const bool valid = target >= 0 && target <= 3; const int want_val = target == from ? 100 + from : 7;
+      s.expect(v.index() == (valid ? target : -1), "model:Variant.index", fmt("Variant<int,A,B,PN> holding alternative %d, Become(%d, 7): index() = %d", from, target, v.index()));
+      s.expect(g_live.size() == (size_t)(valid && target != 0), "registry:Variant.live-count", fmt("holding alternative %d, Become(%d, 7): %zu tracked elements alive", from, target, g_live.size()));
+      BecomeSeen q; v.Visit(q); const int seen = q.as_empty ? -1 : q.as_int ? 0 : q.as_a ? 1 : q.as_b ? 2 : q.as_pn ? 3 : -9;
+      s.expect(q.calls == 1 && seen == (valid ? target : -1), "model:Variant.Visit-alternative", fmt("holding alternative %d, Become(%d, 7): Visit presented alternative %d", from, target, seen));
+      if (valid) s.expect(q.ival == want_val, "model:Variant.value", fmt("holding alternative %d, Become(%d, 7): the element's value is %d, expected %d", from, target, q.ival, want_val));
+      s.expect((v.get<TB>() != nullptr) == (valid && target == 2) && (v.get<int>() != nullptr) == (valid && target == 0), "model:Variant.get", fmt("holding alternative %d, Become(%d, 7): get<T>() disagrees with index()", from, target));
+    }
+    s.end(); }
+  // get<T>() / is<T>() with T spelled with another cv-qualification than the declaration: "a read-only pointer to the string, if that is what it holds"
+  { s.begin("get-with-cv-spelling");
+    { nop::Variant<int, std::string, TA> v(std::string("text")); const auto& cv = v;
+      s.expect(v.is<const std::string>() && v.get<const std::string>() && *v.get<const std::string>() == "text", "model:Variant.get", "Variant<int,string,A> holding a string: get<const string>() is null or is<const string>() false");
+      s.expect(cv.is<const std::string>() && cv.get<const std::string>() != nullptr, "model:Variant.get", "const Variant holding a string: get<const string>() is null");
+      s.expect(!v.is<const int>() && v.get<const int>() == nullptr && v.get<const TA>() == nullptr, "model:Variant.get", "get<const T>() non-null for an inactive alternative");
+      s.expect(v.get<volatile int>() == nullptr && !v.is<const volatile TA>(), "model:Variant.get", "get<volatile T>() non-null for an inactive alternative");
+      v = TA(4); s.expect(v.is<const TA>() && v.get<const TA>() && v.get<const TA>()->v == 4 && cv.get<const TA>() == v.get<TA>(), "model:Variant.get", "Variant holding A: get<const A>() is null or is another object than get<A>()");
+      s.expect(v.get<const std::string>() == nullptr, "model:Variant.get", "get<const string>() non-null after the Variant became A");
+      v = 5; s.expect(v.is<const int>() && v.get<const int>() && *v.get<const int>() == 5, "model:Variant.get", "Variant holding int: get<const int>() is null");
+      v = nop::EmptyVariant{}; s.expect(!v.is<const int>() && !v.get<const std::string>() && !v.get<const TA>(), "model:Variant.get", "get<const T>() non-null on an empty Variant"); }
+    { nop::Variant<const std::string, int> v(std::string("k")); s.expect(v.index() == 0 && v.is<std::string>(), "model:Variant.get", "Variant<const string,int> holding the string: is<string>() is false");
+      s.expect(v.is<const std::string>() && v.get<const std::string>() && *v.get<const std::string>() == "k", "model:Variant.get", "Variant<const string,int> holding the string: get<const string>() is null");
+      s.expect(!v.is<int>() && !v.get<int>() && !v.get<const int>(), "model:Variant.get", "get<int>() non-null while the const string is active");
+      v = 3; s.expect(v.is<int>() && v.get<int>() && !v.is<const std::string>() && !v.get<const std::string>(), "model:Variant.get", "Variant<const string,int> holding int: accessors disagree with index()"); }
+    s.end(); }
+}
 static void variant_special() {
+  variant_become_special();
   { Special s{"c12"};
     big_case<0>(s); big_case<1>(s); big_case<63>(s); big_case<64>(s); big_case<126>(s); big_case<127>(s); big_case<128>(s); big_case<129>(s);
     // an alternative with a constructor taking std::initializer_list of itself (a JSON-like recursive value): a copy must be a copy, not a one-element list
